@@ -154,10 +154,13 @@ def run_case(case, ctx):
                 ctx.fail("file-contents", f"{where}: file has config={has_cfg} flow={has_flow}", case, k=k)
             elif st_ != "smc":
                 ctx.fail("file-sampler-type", f"{where}: stored configuration names sampler {st_!r}", case, k=k)
-            last = logk.writes[-1]["blob"] if logk.writes else oldk
+            last = logk.writes[-1]["blob"] if logk.writes else None
             if last is None:
-                if blob is not None:
-                    ctx.fail("unexpected-checkpoint", f"{where}: file holds a checkpoint although none was written", case, k=k)
+                # before this run's first write the file holds no checkpoint, or (older behaviour, equally consistent as far as
+                # this property goes) still the earlier run's final payload - but never anything else
+                if blob is not None and blob != oldk:
+                    ctx.fail("unexpected-checkpoint", f"{where}: file holds a checkpoint that no run wrote", case, k=k)
+                last = blob
             else:
                 if blob is None:
                     ctx.fail("checkpoint-missing", f"{where}: file holds no checkpoint, {len(logk.writes)} were written", case, k=k)
